@@ -24,5 +24,7 @@ for p in sorted(glob.glob(os.path.join(V, 'seeded', '*', 'meta.json'))):
     for chk, r in sorted(m.get('checks_run', {}).items()):
         sig = (r['signatures'] or ['-'])[0].split(' (')[0]
         runs.append(f"{chk.split()[0]}: `{sig}`" if r['exit'] == 1 else f"{chk.split()[0]}: not reported")
+    if m.get('obsolete'):
+        runs.append(f"*{m['obsolete']}*")
     cut = lambda t, n: (t[:n].rsplit(' ', 1)[0] + ' ...') if len(t) > n else t
     print(f"| {sid} | {cut(m.get('summary', ''), 260)} | {cut(m.get('needs', ''), 200)} | {'; '.join(runs)} |".replace('\n', ' '))
